@@ -725,7 +725,10 @@ func (e *env) afterQuiescenceChecks(s *session) {
 	}
 	for _, id := range ids {
 		rec := e.allOps[id]
-		if rec.state == opProgrammed && e.sess[rec.sess].fibAck && rec.fib == 0 && !rec.unacked {
+		// (a stream that ended abnormally - an RPC error raised by a later message, or the client gone - owes
+		// nothing more: "unless ... the stream ended"; a stream that ended cleanly has delivered everything)
+		cut := e.sess[rec.sess].dead && (e.sess[rec.sess].termErr == nil || e.sess[rec.sess].termErr.Error() != "EOF")
+		if rec.state == opProgrammed && e.sess[rec.sess].fibAck && rec.fib == 0 && !rec.unacked && !cut {
 			e.report("C06", "missing-fib-ack", "RIB_PROGRAMMED without FIB_PROGRAMMED on a FIB-ack session", describeOp(rec.op), false)
 		}
 		if rec.state != opSent && rec.state != opHeld {
